@@ -355,6 +355,28 @@ func engineResources(thorough bool) {
 			}
 		}
 	}
+	if thorough {
+		// every triple of per-field deviations
+		for base := 0; base < nStates; base++ {
+			for i := range fields {
+				for j := i + 1; j < len(fields); j++ {
+					for k := j + 1; k < len(fields); k++ {
+						for si := 0; si < nStates; si++ {
+							for sj := 0; sj < nStates; sj++ {
+								for sk := 0; sk < nStates; sk++ {
+									if si == base || sj == base || sk == base {
+										continue
+									}
+									checkResources(base, map[int]int{i: si, j: sj, k: sk})
+									n++
+								}
+							}
+						}
+					}
+				}
+			}
+		}
+	}
 	// nil handling
 	eval()
 	if api.FromOCILinuxResources(nil, nil) != nil {
